@@ -362,7 +362,7 @@ def apply_contract(I, con, args, kwargs, fi=None, callee_label=None):
         con.emits(spec, ctx, **views)
     if con.announce:
         vals = [v for k, v in typed_bound.items()]
-        ctx.emit("call", con.key, vals[0] if vals else None, vals[1] if len(vals) > 1 else None)
+        ctx.emit("call", con.key, vals[0] if vals else None, vals[1] if len(vals) > 1 else None, vals[2] if len(vals) > 2 and isinstance(vals[2], SV) else None)
     if con.delegate is not None:
         return con.delegate(I, **typed_bound)
     apply_writes(I, con, spec, views)
